@@ -228,6 +228,8 @@ func (s Server) Serve(c context.Context, conn network.Conn) (err error) {
 			})
 		}
 
+		// (per request: a handler may have given its own request another render)
+		ctx.HTMLRender = s.HTMLRender
 		ctx.Response.Header.SetNoDefaultDate(s.NoDefaultDate)
 		ctx.Response.Header.SetNoDefaultContentType(s.NoDefaultContentType)
 
